@@ -112,10 +112,21 @@ type decOut struct {
 }
 
 func (o encOut) String() string {
-	return fmt.Sprintf("(ct=%x tag=%x err=%v panic=%v)", o.ct, o.tag, o.err, o.pnc)
+	return fmt.Sprintf("(ct=%s tag=%x err=%v panic=%v)", hx(o.ct), o.tag, o.err, o.pnc)
 }
 
-func (o decOut) String() string { return fmt.Sprintf("(pt=%x err=%v panic=%v)", o.pt, o.err, o.pnc) }
+func (o decOut) String() string {
+	return fmt.Sprintf("(pt=%s err=%v panic=%v)", hx(o.pt), o.err, o.pnc)
+}
+
+// hx prints b in hex; long values (the long-size classes reach hundreds of kilobytes) are
+// abbreviated to both ends and the length - the case line (sizes + seed) regenerates the rest.
+func hx(b []byte) string {
+	if len(b) <= 160 {
+		return fmt.Sprintf("%x", b)
+	}
+	return fmt.Sprintf("%x..(%d bytes)..%x", b[:48], len(b), b[len(b)-48:])
+}
 
 // kitEncrypt calls the entry point named by api: "sym" = EncryptSymmetric, "generic" = Encrypt, "pub" = EncryptPublicKey.
 func kitEncrypt(api string, pt []byte, alg string, key jwk.Key, nonce, aad []byte) (o encOut) {
